@@ -113,6 +113,15 @@ CHECKS["C09"] = dict(
     note=E2NOTE,
 )
 
+CHECKS["C01"] = dict(
+    engine=E2, category="model_checking", design="§3 C01",
+    technique="symbolic execution of loads -> serialize -> loads (two generations) on skeleton scripts with z3-term proxies; z3 decides re-loaded != original per path; bounded automata query (z3) for the lexeme lemma",
+    text="Valid skeleton scripts (C02/C05/C06 generator families, templates with adversarial parameter names, measured-register expressions, arrays, tdm programs) are "
+         "loaded, serialised and re-loaded twice by the real code with every literal symbolic; z3 decides for all values whether name, version, target, type, "
+         "parameters or the operation sequence can differ; symbolic arguments are compared by evaluation on fresh symbol values. Lexeme lemma as in C09.",
+    note=E2NOTE,
+)
+
 NOT_YET = "check not built yet in this round (see DESIGN.md §3 for the plan); not claimed"
 
 
